@@ -1,10 +1,99 @@
-(* C12 -- messages, tag names and paths reach the VCS verbatim. (theorems are added as they are proved) *)
-From Coq Require Import List NArith.
-From BV Require Import Lib.PyStr Model.V1 Model.Vcs.
+(* C12 -- messages, tag names and paths reach the VCS verbatim. *)
+From Coq Require Import List Bool NArith.
+From BV Require Import Lib.PyStr Model.V2 Model.V1 Model.Vcs Gen.Tables Proofs.VcsFacts.
 Import ListNotations.
+Local Open Scope N_scope.
+
+(* str.format on a part that is exactly one replacement field yields the value, whatever it contains *)
+Theorem C12_str_format_single_field : forall name v kw,
+  (forall c, In c name -> c <> 123 /\ c <> 125 /\ c <> 58) ->
+  assoc name kw = Some (VStr v) -> str_format ([123] ++ name ++ [125]) kw = Some v.
+Proof. exact str_format_single_field. Qed.
+Print Assumptions C12_str_format_single_field.
+
+Theorem C12_str_format_no_braces : forall s kw, (forall c, In c s -> c <> 123 /\ c <> 125) -> str_format s kw = Some s.
+Proof. exact str_format_no_braces. Qed.
+Print Assumptions C12_str_format_no_braces.
+
+(* the generated table says the repository splits the template before substituting *)
+Theorem C12_repo_splits_before_format : VCS_SPLIT_BEFORE_FORMAT = true.
+Proof. exact repo_splits_before_format. Qed.
+Print Assumptions C12_repo_splits_before_format.
+
+(* git commit --message '{message}' *)
+Theorem C12_git_commit_argv : forall m,
+  vcs_cmd [103;105;116] [99;111;109;109;105;116] [([109;101;115;115;97;103;101], m)]
+  = Some [[103;105;116]; [99;111;109;109;105;116]; [45;45;109;101;115;115;97;103;101]; m].
+Proof. exact git_commit_argv. Qed.
+Print Assumptions C12_git_commit_argv.
+
+(* git add --update '{path}' *)
+Theorem C12_git_add_argv : forall p,
+  vcs_cmd [103;105;116] [97;100;100;95;112;97;116;104] [([112;97;116;104], p)]
+  = Some [[103;105;116]; [97;100;100]; [45;45;117;112;100;97;116;101]; p].
+Proof. exact git_add_argv. Qed.
+Print Assumptions C12_git_add_argv.
+
+(* git tag --annotate {tag} --message '{message}' *)
+Theorem C12_git_tag_argv : forall t m,
+  vcs_cmd [103;105;116] [116;97;103] [([116;97;103], t); ([109;101;115;115;97;103;101], m)]
+  = Some [[103;105;116]; [116;97;103]; [45;45;97;110;110;111;116;97;116;101]; t; [45;45;109;101;115;115;97;103;101]; m].
+Proof. exact git_tag_argv. Qed.
+Print Assumptions C12_git_tag_argv.
+
+(* git tag {tag} *)
+Theorem C12_git_tag_light_argv : forall t,
+  vcs_cmd [103;105;116] [116;97;103;95;108;105;103;104;116] [([116;97;103], t)]
+  = Some [[103;105;116]; [116;97;103]; t].
+Proof. exact git_tag_light_argv. Qed.
+Print Assumptions C12_git_tag_light_argv.
+
+(* hg commit --logfile '{path}' *)
+Theorem C12_hg_commit_argv : forall p,
+  vcs_cmd [104;103] [99;111;109;109;105;116] [([112;97;116;104], p)]
+  = Some [[104;103]; [99;111;109;109;105;116]; [45;45;108;111;103;102;105;108;101]; p].
+Proof. exact hg_commit_argv. Qed.
+Print Assumptions C12_hg_commit_argv.
+
+(* hg tag {tag} --message '{message}' *)
+Theorem C12_hg_tag_argv : forall t m,
+  vcs_cmd [104;103] [116;97;103] [([116;97;103], t); ([109;101;115;115;97;103;101], m)]
+  = Some [[104;103]; [116;97;103]; t; [45;45;109;101;115;115;97;103;101]; m].
+Proof. exact hg_tag_argv. Qed.
+Print Assumptions C12_hg_tag_argv.
+
+(* hg add '{path}' *)
+Theorem C12_hg_add_argv : forall p,
+  vcs_cmd [104;103] [97;100;100;95;112;97;116;104] [([112;97;116;104], p)]
+  = Some [[104;103]; [97;100;100]; p].
+Proof. exact hg_add_argv. Qed.
+Print Assumptions C12_hg_add_argv.
+
+(* the behaviour before the fix (format, then split) does alter some message *)
+Theorem C12_format_then_split_alters : exists m,
+  (match str_format [103;105;116;32;99;111;109;109;105;116;32;45;45;109;101;115;115;97;103;101;32;39;123;109;101;115;115;97;103;101;125;39]
+                    [([109;101;115;115;97;103;101], VStr m)] with
+   | Some s => shlex_split s
+   | None => None
+   end) <> Some [[103;105;116]; [99;111;109;109;105;116]; [45;45;109;101;115;115;97;103;101]; m].
+Proof. exact format_then_split_alters. Qed.
+Print Assumptions C12_format_then_split_alters.
+
 (* git commit --message '{message}' with message = it's  ->  ["git"; "commit"; "--message"; "it's"] *)
 Example C12_quote_in_message :
-  vcs_cmd [103;105;116]%N [99;111;109;109;105;116]%N [([109;101;115;115;97;103;101], [105;116;39;115])]%N
-  = Some [[103;105;116]; [99;111;109;109;105;116]; [45;45;109;101;115;115;97;103;101]; [105;116;39;115]]%N.
+  vcs_cmd [103;105;116] [99;111;109;109;105;116] [([109;101;115;115;97;103;101], [105;116;39;115])]
+  = Some [[103;105;116]; [99;111;109;109;105;116]; [45;45;109;101;115;115;97;103;101]; [105;116;39;115]].
 Proof. vm_compute. reflexivity. Qed.
 Print Assumptions C12_quote_in_message.
+
+(* message = a 'b' c : verbatim now; format-then-split would have produced  a b c *)
+Example C12_quoted_word_in_message :
+  vcs_cmd [103;105;116] [99;111;109;109;105;116] [([109;101;115;115;97;103;101], [97;32;39;98;39;32;99])]
+  = Some [[103;105;116]; [99;111;109;109;105;116]; [45;45;109;101;115;115;97;103;101]; [97;32;39;98;39;32;99]] /\
+  (match str_format [103;105;116;32;99;111;109;109;105;116;32;45;45;109;101;115;115;97;103;101;32;39;123;109;101;115;115;97;103;101;125;39]
+                    [([109;101;115;115;97;103;101], VStr [97;32;39;98;39;32;99])] with
+   | Some s => shlex_split s
+   | None => None
+   end) = Some [[103;105;116]; [99;111;109;109;105;116]; [45;45;109;101;115;115;97;103;101]; [97;32;98;32;99]].
+Proof. vm_compute. split; reflexivity. Qed.
+Print Assumptions C12_quoted_word_in_message.
